@@ -92,6 +92,21 @@ def run(ctx, rep):
     rep.guarded("R01-STATIC", lambda: r_static(sh, rep))
     rep.rule("R01-LISTTRIM", "list destructuring: a discard in front of an open tail still counts towards the length a failing `expect` demands (only the tail position is dropped because a tail is present)", floor=2)
     rep.guarded("R01-LISTTRIM", lambda: r_listtrim(sh, rep))
+    rep.rule("R01-CANCEL", "the optimiser drops a cast pair outer(inner(x)) only when the inner builtin cannot fail: a failed `expect` / partial builtin must still abort in the compiled program (shared with C02)", floor=4)
+
+    def cancel():
+        from . import c02
+        from .btab import BuiltinTables
+        c02.r_cancel(sh, rep, BuiltinTables(sh), "R01-CANCEL")
+
+    rep.guarded("R01-CANCEL", cancel)
+    rep.rule("R01-DELAYSCAN", "a strict `let` in front of an if/else is not moved into one branch: the inliner's occurrence analysis counts a use inside a delayed branch as delayed unless the other branch is `error` (shared with C02)", floor=2)
+
+    def delayscan():
+        from . import c02
+        c02.r_delayscan(sh, rep, "R01-DELAYSCAN")
+
+    rep.guarded("R01-DELAYSCAN", delayscan)
     rep.rule("R01-TYPEKEY", "decoder-cache keys (push_type_identity) start with a tag that is unique per type constructor", floor=4)
     rep.guarded("R01-TYPEKEY", lambda: r_typekey(sh, rep))
 
